@@ -17,3 +17,44 @@ func VerifParseDurationSTLBytes(b []byte, framerate int) time.Duration {
 func VerifFormatDurationSTLBytes(d time.Duration, framerate int) []byte {
 	return formatDurationSTLBytes(d, framerate)
 }
+
+// ---- C05: tables and function-level forwarders ----
+
+// VerifDumpSTLTables returns the tables the STL codec runs on, as JSON (see bin/gen_tables of the
+// verification framework): the character code tables, the writer's inverse unicode / diacritic maps
+// probed on every rune below domainMax, NFD and canonical combining classes on the same domain,
+// NFC of every (table entry, floating diacritic) pair that is not the plain concatenation, the
+// disk-format-code and language maps.
+func VerifDumpSTLTables() string { return verifDumpSTLTables() }
+
+func VerifEncodeTextSTL(i string) []byte { return encodeTextSTL(i) }
+
+// VerifSTLDecode decodes the bytes one by one with one character handler; the pending accent is returned too
+func VerifSTLDecode(table uint16, b []byte) (o string, accent string, err error) {
+	h, err := newSTLCharacterHandler(table)
+	if err != nil {
+		return "", "", err
+	}
+	for _, c := range b {
+		o += string(h.decode(c))
+	}
+	return o, h.accent, nil
+}
+
+// VerifSTLRow parses one row with a fresh item, character handler (pending accent preset) and STL styler
+func VerifSTLRow(open bool, accent string, row []byte) (*Item, string, error) {
+	h, err := newSTLCharacterHandler(stlCharacterCodeTableNumberLatin)
+	if err != nil {
+		return nil, "", err
+	}
+	h.accent = accent
+	i := &Item{}
+	if open {
+		if err = parseOpenSubtitleRow(i, h, func() styler { return newSTLStyler() }, row); err != nil {
+			return nil, "", err
+		}
+	} else {
+		parseTeletextRow(i, h, func() styler { return newSTLStyler() }, row)
+	}
+	return i, h.accent, nil
+}
